@@ -39,7 +39,72 @@ def subscriptions(model, info, art):
     return ("confirmed" if problems else "contradicted"), "; ".join(problems) or "subscriptions behave as documented"
 
 
+def policy_case(n, raising, ignore):
+    """n callbacks on 'event', those in `raising` raise (each its own exception): the clause of contracts/C19.py: process[n]"""
+    d = Dispatcher()
+    d.ignore_exceptions = ignore
+    log = []
+    booms = [ValueError(f"boom{i}") for i in range(n)]
+    doc = {}
+
+    def make(i):
+        def cb(name, dd):
+            log.append((i, name, dd))
+            if i in raising:
+                raise booms[i]
+        return cb
+    for i in range(n):
+        d.subscribe(make(i), "event")
+    try:
+        d.process(DocumentNames.event, doc)
+        r = ("ok", None)
+    except Exception as exc:  # noqa: BLE001
+        r = ("raise", exc)
+    called = [i for i, nm, dd in log]
+    args_ok = all(nm == "event" and dd is doc for i, nm, dd in log)
+    if not raising or ignore:
+        ok = r[0] == "ok" and called == list(range(n)) and args_ok
+    else:
+        ok = r[0] == "raise" and r[1] is booms[raising[0]] and called == list(range(raising[0] + 1)) and args_ok
+    return [] if ok else [f"n={n} raising={raising} ignore_exceptions={ignore}: called {called}, outcome {r!r}, arguments ok: {args_ok}"]
+
+
+def emit(model, info, art):
+    """RunEngine.emit / emit_sync hand the document to the dispatcher exactly once and let its error through"""
+    import asyncio
+
+    from bluesky import RunEngine
+    problems = []
+    for fails in (False, True):
+        for entry in ("emit", "emit_sync"):
+            RE = RunEngine({}, context_managers=[])
+            calls = []
+            boom = ValueError("boom")
+
+            def process(name, doc):
+                calls.append((name, doc))
+                if fails:
+                    raise boom
+            RE.dispatcher.process = process
+            doc = {}
+            try:
+                if entry == "emit":
+                    asyncio.run_coroutine_threadsafe(RE.emit(DocumentNames.event, doc), RE.loop).result(10)
+                else:
+                    RE.emit_sync(DocumentNames.event, doc)
+                r = ("ok", None)
+            except Exception as exc:  # noqa: BLE001
+                r = ("raise", exc)
+            ok = len(calls) == 1 and calls[0][0] is DocumentNames.event and calls[0][1] is doc and (r[0] == "raise" and r[1] is boom if fails else r[0] == "ok")
+            if not ok:
+                problems.append(f"{entry}, dispatcher raises={fails}: dispatcher called {len(calls)} times, outcome {r!r}")
+    return ("confirmed" if problems else "contradicted"), "; ".join(problems) or "emit / emit_sync forward each document once and propagate errors"
+
+
 def policy(model, info, art):
+    if "n" in info:
+        problems = policy_case(info["n"], info["raising"], info["ignore"])
+        return ("confirmed" if problems else "contradicted"), "; ".join(problems) or f"n={info['n']} raising={info['raising']} ignore={info['ignore']}: as the statement demands"
     problems = []
     for ignore in (True, False):
         d = Dispatcher()
@@ -213,7 +278,10 @@ def run_policy_run(sc):
 
     def recorder(label):
         def cb(name, doc):
-            calls.append((label, name, idx(doc)))
+            t = idx(doc)
+            calls.append((label, name, t))
+            if label == "c" and role == "raises and so does the last one" and t == at:
+                raise ValueError("boom of the last callback")
         return cb
 
     def middle(name, doc):
@@ -230,7 +298,7 @@ def run_policy_run(sc):
                     RE.unsubscribe(tokens["c"])
             except Exception as exc:  # noqa: BLE001
                 st["error"] = repr(exc)
-        if (role == "raises" and t == at and not raises) or (role == "raises from then on" and t >= at):
+        if (role in ("raises", "raises and so does the last one") and t == at and not raises) or (role == "raises from then on" and t >= at):
             raises[t] = "x"
             raise boom
     tokens["a"] = RE.subscribe(recorder("a"))
